@@ -209,11 +209,11 @@ def _table(ctx) -> None:
                     problems.append(f"the pass sorts with reverse=`{sh(rk, 40) if rk is not None else 'False'}`, expected this key's own flag")
                 if se.conds[len(lp.conds):]:
                     problems.append(f"a pass is skipped under `{show_conds(se.conds[len(lp.conds):], it)[:60]}`")
-                if kf is None or kf[0] != "lam":
+                if kf is None or not it.is_function_term(kf):
                     problems.append("the sort has no per-key None-aware key function")
                 else:
                     arg = ("name", "<row>")
-                    r = it.call_value(kf, (arg,), se.conds, se.loops)
+                    r = _pair_of(it.call_value(kf, (arg,), se.conds, se.loops))
                     if r is None or r[0] != "tuple" or len(r[1]) != 2:
                         problems.append(f"the key function returns `{sh(r, 60)}`, not (None flag, value)")
                     else:
@@ -416,6 +416,15 @@ def _cell_problems(result, val, atoms_base, is_none_atom, rev: bool, nl: bool, s
     return problems
 
 
+def _pair_of(r):
+    """a key function with guard-clause returns gives `(a1, b1) if c else (a2, b2)`: the pair of the two conditionals"""
+    if r is not None and r[0] == "ifexp":
+        a, b = _pair_of(r[2]), _pair_of(r[3])
+        if a is not None and b is not None and a[0] == "tuple" and b[0] == "tuple" and len(a[1]) == len(b[1]):
+            return ("tuple", tuple(x if x == y else ("ifexp", r[1], x, y) for x, y in zip(a[1], b[1])))
+    return r
+
+
 def _none_cells(ctx) -> None:
     prog = ctx.prog
     cells = [(rev, nl) for rev in (False, True) for nl in (False, True)]
@@ -423,11 +432,11 @@ def _none_cells(ctx) -> None:
     f = prog.func("table.Table.sort_by")
     it = SInterp(prog, f)
     sorts = [e for e in it.events if e.kind == "call" and e.term[1][0] == "attr" and e.term[1][2] == "sort" and kw(e.term, "key") is not None]
-    if len(sorts) != 1 or kw(sorts[0].term, "key")[0] != "lam":
+    if len(sorts) != 1 or not it.is_function_term(kw(sorts[0].term, "key")):
         raise AnalysisError("Table.sort_by: the keyed .sort() call of the passes was not found")
     se = sorts[0]
     arg = ("name", "<row>")
-    r = it.call_value(kw(se.term, "key"), (arg,), se.conds, se.loops)
+    r = _pair_of(it.call_value(kw(se.term, "key"), (arg,), se.conds, se.loops))
     revt = kw(se.term, "reverse")
     g = prog.func("vector.Vector.sort_by")
     itv = SInterp(prog, g)
@@ -448,7 +457,7 @@ def _none_cells(ctx) -> None:
                     raise AnalysisError("Vector.sort_by: sorted(..., key=...) not found")
                 atoms = {("param", "reverse"): rev, ("param", "na_last"): nl}
                 k = reduce_ifexp(kw(vs[0], "key"), atoms)
-                if k[0] != "lam":
+                if not itv.is_function_term(k):
                     raise AnalysisError("Vector.sort_by: the sort key is not a lambda / local function")
                 x = ("name", "<element>")
                 rr = itv.call_value(k, (x,))
